@@ -13,7 +13,7 @@ import D42.Model.Migrate
 import D42.Model.History
 import D42.Model.Format
 import D42.Model.RegexMatch
-import D42.Gen.Migration
+import D42.Gen.MigrationData
 
 open D42 D42.Sexp
 
